@@ -7,8 +7,11 @@ import (
 	"errors"
 	"fmt"
 	"os"
+	"runtime"
 	"runtime/debug"
+	"strings"
 	"sync"
+	"time"
 )
 
 // ErrDead is returned by every fake that belongs to a crashed process.
@@ -59,6 +62,9 @@ type World struct {
 	nonce    uint64
 	Notes    []string
 	Panics   []string // panics raised by the code under test inside a step
+	// Hangs: a step (one call into the node) that did not return within StepWatchdog although no fake
+	// was holding it - the code under test blocks itself. Later steps of a hung world are skipped.
+	Hangs []string
 
 	delivered map[int]int
 	dropped   map[int]bool
@@ -186,6 +192,12 @@ func (w *World) Step(n *Node, fn func()) (crashed bool) {
 	if p == nil || p.Dead() {
 		return true
 	}
+	w.mu.Lock()
+	hung := len(w.Hangs) > 0
+	w.mu.Unlock()
+	if hung {
+		return false
+	}
 	done := make(chan struct{})
 	go func() {
 		defer close(done)
@@ -210,5 +222,54 @@ func (w *World) Step(n *Node, fn func()) (crashed bool) {
 		return p.Dead()
 	case <-w.crashed:
 		return true
+	case <-time.After(StepWatchdog):
+	}
+	// The step is overdue. It is reported as a hang only if its goroutine is parked on a lock, channel or
+	// wait group (not merely starved of CPU on a busy machine): look at it a few more times.
+	for tries := 0; ; tries++ {
+		state, dump := stepGoroutineState()
+		blocked := strings.Contains(state, "semacquire") || strings.Contains(state, "chan receive") || strings.Contains(state, "chan send") ||
+			strings.Contains(state, "select") || strings.Contains(state, "sync.") || strings.Contains(state, "Lock")
+		if blocked || tries >= 12 {
+			w.mu.Lock()
+			w.Hangs = append(w.Hangs, "step goroutine state: "+state+"\n"+dump)
+			w.mu.Unlock()
+			return false
+		}
+		select {
+		case <-done:
+			return p.Dead()
+		case <-w.crashed:
+			return true
+		case <-time.After(10 * time.Second):
+		}
 	}
 }
+
+// stepGoroutineState returns the scheduler state of the goroutine that runs the current step's call and a
+// dump of the goroutines that are inside the code under test.
+func stepGoroutineState() (string, string) {
+	buf := make([]byte, 4<<20)
+	nb := runtime.Stack(buf, true)
+	state := "unknown"
+	var keep []string
+	for _, g := range strings.Split(string(buf[:nb]), "\n\n") {
+		if strings.Contains(g, "sim.(*World).Step.func1") && !strings.Contains(g, "sim.(*Proc).point") {
+			if i, j := strings.Index(g, "["), strings.Index(g, "]"); i >= 0 && j > i {
+				state = g[i+1 : j]
+			}
+		}
+		if strings.Contains(g, "peerswap/") && !strings.Contains(g, "sim.(*World).Step(") {
+			l := strings.Split(g, "\n")
+			if len(l) > 16 {
+				l = l[:16]
+			}
+			keep = append(keep, strings.Join(l, "\n"))
+		}
+	}
+	return state, strings.Join(keep, "\n\n")
+}
+
+// StepWatchdog bounds one call into a node. Every fake answers at once (a slow payment sleeps
+// SlowPayDelay), so a step that is still running after this long is blocked inside the code under test.
+var StepWatchdog = 15 * time.Second
